@@ -16,7 +16,7 @@ pub fn prop() -> Prop {
         max_len: 700,
         quick: 100_000,
         thorough: 1_500_000,
-        rule: "choice sequence -> envelope spec (depth<=6, <=7 assertions/node, all leaf types, known values, wrapped, assertion-on-assertion, node-as-subject, elided/encrypted/compressed parts) built along route A twice (constructors/mutators, two insertion orders and API mixes) and route B (harness encoder -> library decoder), then 0-6 history steps; oracle = digests recomputed bottom-up by the harness (own SHA-256 + dCBOR) from the structure read through case(), at every position, plus bytes re-parsed by the harness parser, plus route independence. non-trivial: tree has >=1 node and >=3 elements; distinct by FNV-64 of the spec encoding + op list; histories also contain add-bulk-with-repeats (array forms naming an assertion twice), replace-by-equal (same-digest renditions), import-obscured and import-and-open-noncanonical, add-subject-as-assertion",
+        rule: "choice sequence -> envelope spec (depth<=6, <=7 assertions/node, all leaf types, known values, wrapped, assertion-on-assertion, node-as-subject, elided/encrypted/compressed parts) built along route A twice (constructors/mutators, two insertion orders and API mixes) and route B (harness encoder -> library decoder), then 0-6 history steps; oracle = digests recomputed bottom-up by the harness (own SHA-256 + dCBOR) from the structure read through case(), at every position, plus bytes re-parsed by the harness parser, plus route independence. non-trivial: tree has >=1 node and >=3 elements; distinct by FNV-64 of the spec encoding + op list; histories also contain add-bulk-with-repeats (array forms naming an assertion twice), replace-by-equal (same-digest renditions), import-obscured and import-and-open-noncanonical, add-subject-as-assertion, replace-subject-sharing-an-assertion",
         assumptions: &[
             "sha2 crate implements SHA-256",
             "bc-components ChaCha20-Poly1305 / deflate used only to build and open ciphertext/compressed blobs",
